@@ -110,6 +110,16 @@ def _graph_cases(tier, rng):
             out.append((n, bits, ()))
             if n == 4 and bits % 7 == 0:
                 out.append((n, bits, (bits % 4,)))
+    if tier == 'thorough':
+        # every digraph on 5 nodes without self-loops (2^20 graphs)
+        n = 5
+        pos = [i * n + j for i in range(n) for j in range(n) if i != j]
+        for code in range(1 << len(pos)):
+            bits = 0
+            for b, pp in enumerate(pos):
+                if code >> b & 1:
+                    bits |= 1 << pp
+            out.append((n, bits, ()))
     k = 300 if tier == 'quick' else 60000
     for _ in range(k):
         n = rng.randrange(5, 10)
@@ -216,7 +226,7 @@ def _check_wb(case):
 BOUNDED = [
     Stage('B1:cycle-enumeration-vs-brute-force', 'C10', _graph_cases, _check_graph,
           'every digraph on 1..4 nodes (2 + 16 + 512 + 65 536, exhaustive, self-loops included; every 7th 4-node graph also with a skipped node), '
-          'random digraphs on 5..9 nodes (300 quick / 60000 thorough): simple_cycles reports each elementary cycle exactly once',
+          'thorough: also every digraph on 5 nodes without self-loops (1 048 576); random digraphs on 5..9 nodes (300 quick / 60000 thorough): simple_cycles reports each elementary cycle exactly once',
           exhaustive=True),
     Stage('B2:small-cyclic-workbooks', 'C10', _wb_cases, _check_wb,
           '26 small workbooks (guarded / unguarded back edges through IF, IFS, IFERROR, ranges, self references, independent cycles; 5 guard values) '
